@@ -11,7 +11,7 @@ number of these can run at the same time.  Exit 0 if every listed check reported
 import sys, os, subprocess, shutil, json
 name, ids = sys.argv[1], sys.argv[2].split(",")
 extra = sys.argv[3:]
-patch = os.path.join("/verif/seeded", name, "patch.diff")
+patch = name if "/" in name else os.path.join("/verif/seeded", name, "patch.diff")
 assert os.path.exists(patch), patch
 base = "/tmp/mc%d" % os.getpid()
 v, r = base + "/v", base + "/r"
